@@ -1243,6 +1243,7 @@ namespace
             return {};
         }
         auto val = params[1];
+        auto oldsize = arr->size();
         if (static_cast<int>(arr->size()) <= index)
         {
             arr->resize(index + 1);
@@ -1252,6 +1253,7 @@ namespace
         if (!arr->recursion_test())
         {
             (*arr)[index] = oldval;
+            arr->resize(oldsize);
             runtime.__logmsg(err::ArrayRecursion(runtime.context_active().current_frame().diag_info_from_position()));
             return {};
         }
@@ -1292,7 +1294,16 @@ namespace
     {
         auto arr = left.data<d_array>();
         auto r = right.data<d_array>();
-        arr->insert(arr->end(), r->begin(), r->end());
+        auto oldsize = arr->size();
+        // copy first: the right array may be the left one
+        std::vector<value> add = r->value();
+        arr->insert(arr->end(), add.begin(), add.end());
+        if (!arr->recursion_test())
+        {
+            arr->erase(arr->begin() + oldsize, arr->end());
+            runtime.__logmsg(err::ArrayRecursion(runtime.context_active().current_frame().diag_info_from_position()));
+            return {};
+        }
         return {};
     }
     value arrayintersect_array_array(runtime& runtime, value::cref left, value::cref right)
